@@ -67,6 +67,27 @@ claim("C07", "exploration",
       "deterministic simulation, seeded ff-block permutation, reference-model oracle + pre-flip invariant", "DESIGN.md 4 C07")
 
 
+claim("C11", "exploration",
+      "Three design families with cyclic block graphs: false loops (generated acyclic designs whose blocks are merged "
+      "so that the block graph is cyclic while the bit-level equations stay acyclic), true loops (or/and/mux/inverter/"
+      "plus rings of 2..14 blocks, optionally through nets) and cycles containing an update_once block; run under the "
+      "cyclic-capable schedulers (Dynamic, Mamba2020, both with seeded metadata order). Oracle: on return every block "
+      "re-invoked alone changes nothing; false loops equal the reference evaluator; odd inverter rings raise "
+      "UpblkCyclicError, convergent families never do; invocation count bounded; acyclic-only schedulers raise on a "
+      "cyclic graph instead of scheduling it.",
+      "dump_dag is stubbed (S9) so the acyclic-only passes' own UpblkCyclicError is observable on a headless machine; "
+      "convergent templates are assumed to need far fewer than 100 passes.",
+      "deterministic simulation, seeded schedule search, fixed-point invariant + reference model", "DESIGN.md 4 C11")
+claim("C16", "exploration",
+      "The real VcdGenerationPass / PrintTextWavePass write into an in-memory file; a profile hook samples every "
+      "signal of every component at the instant the dump function is entered (the cycle's edge). An independent VCD "
+      "reader must give value_at(100*t) == sample[t] for every signal and cycle (also for seeded prefixes of the file), "
+      "the $var set and widths must match the design, initial values are type defaults, the clock toggles once per "
+      "cycle, and the text-wave record holds the same per-cycle values.",
+      "Timing model: cycle t = t-th dump call (sim_reset's cycles included), changes under '#100t' belong to time 100t.",
+      "deterministic simulation with in-memory I/O seam, history check of the written artefact", "DESIGN.md 4 C16")
+
+
 def main():
   props = [json.loads(l)["id"] for l in open(os.path.join(VERIF, "properties.jsonl"))]
   checks = []
